@@ -1,7 +1,7 @@
 (* Correspondence checker for C11: the container's link fields, counts and ends (read through the
    serde snapshot) must equal what scanning the slots yields (Model/Nav.v). *)
 From Coq Require Import List QArith ZArith NArith Bool Arith.
-From QmcV Require Import Model.Prog Model.Sse Model.Nav Model.FastOps Check.Common.
+From QmcV Require Import Model.Prog Model.Sse Model.Nav Model.FastOps Model.FastOpsNav Check.Common.
 Import ListNotations.
 Local Open Scope nat_scope.
 
@@ -64,8 +64,14 @@ Definition check (c : case) : verdict :=
            | Some cs => forallb (fun '(b, c) => Nat.eqb c (count_bond b sl)) (combine (seq 0 (length cs)) cs)
            end)
   | Mut nvars nb before a decs after =>
-      let '(F, _) := FastOps.sweep (build nvars nb before) (scan_cursor nvars before a) a decs in
-      of_bool (fops_eqb F after)
+      (* the cursor is built by the transcribed fill_args_at_p (backward walk over the links), the
+         mutations by the transcribed mutate_p; the world-line walks of the result must enumerate
+         exactly the operators on each variable *)
+      let F := mutate_subsection (build nvars nb before) a decs in
+      of_bool (fops_eqb F after
+               && margs_eqb (fill_args_at_p (build nvars nb before) a) (scan_cursor nvars before a)
+               && forallb (fun v => list_beq prel_eqb (walk_var F v) (ops_on_var (contents F) v)) (seq 0 nvars)
+               && nats_eqb (walk_p F) (occupied (contents F)))
   end.
 
 Definition run (base : N) (cs : list case) : list N * N := collect check base cs.
